@@ -80,6 +80,7 @@ def run_key_notes(key):
     if not ok:
         S.problem("get_notes(%r)" % key, ref_notes, notes)
         return
+    notes_live, acc_live = notes, acc
     notes = list(notes) if isinstance(notes, (list, tuple)) else notes
     acc = list(acc) if isinstance(acc, (list, tuple)) else acc
     S.outcome((key, sig, tuple(acc) if isinstance(acc, list) else repr(acc), tuple(notes) if isinstance(notes, list) else repr(notes)))
@@ -128,6 +129,18 @@ def run_key_notes(key):
     ok, again = _call(K.get_notes, key)
     if not ok or list(again) != notes:
         S.problem("get_notes(%r) second call" % key, notes, again)
+    # --- ... also after the caller has scribbled over what the first calls handed out (these were the
+    # first requests for this key in this worker process: the rows just computed must not be the rows kept)
+    for live in (notes_live, acc_live):
+        if isinstance(live, list):
+            live.append("X")
+            live.reverse()
+    ok, again = _call(K.get_notes, key)
+    if not ok or list(again) != ref_notes:
+        S.problem("get_notes(%r) after the caller modified the lists returned earlier" % key, ref_notes, again)
+    ok, again = _call(K.get_key_signature_accidentals, key)
+    if not ok or list(again) != ref_acc:
+        S.problem("get_key_signature_accidentals(%r) after the caller modified the lists returned earlier" % key, ref_acc, again)
 
 
 # ---------------------------------------------------------------------------------------
@@ -261,6 +274,15 @@ def run_reject(cand):
     S.count("candidates_accepted" if is_key else "candidates_refused")
     if not is_key:
         S.sample(cand)
+    # a refusal must leave the module as it was: a valid key asked right afterwards gets the right answers
+    probe = P.KEYS30[sum(ord(c) for c in cand) % 30]
+    ok, got = _call(K.get_key_signature_accidentals, probe)
+    want = P.key_signature_accidentals(P.KEY_SIG[probe])
+    if not ok or list(got) != want:
+        S.problem("get_key_signature_accidentals(%r) right after the candidate %r went through the key functions" % (probe, cand), want, got)
+    ok, got = _call(K.get_notes, probe)
+    if not ok or list(got) != P.notes_of_key(probe):
+        S.problem("get_notes(%r) right after the candidate %r went through the key functions" % (probe, cand), P.notes_of_key(probe), got)
 
 
 REJECT_ALPHABET = ["C", "c", "F", "f", "A", "a", "B", "b", "#", "x", " ", "1"]
